@@ -112,10 +112,6 @@ def outcomeBoot : Outcome → String
   | .notInGroup => "load-err:identity-not-in-group"
   | .panicked => "panic"
 
-def isOk : Outcome → Bool
-  | .ok _ _ => true
-  | _ => false
-
 def crashStep (s : CrashSt) (f : List String) : CrashSt × String :=
   match f with
   | ["init", _, _, _, _] => ({ hasBp := true }, "ok")
@@ -157,8 +153,8 @@ def crashStep (s : CrashSt) (f : List String) : CrashSt × String :=
     (s, s!"rest;{showRec (recover asIs s.member s.disk)};chain={showChain s.disk.chain}")
   | ["restart"] =>
     let (o, d) := startup s.member s.disk
-    let good := isOk o || o == .fresh
-    ({ s with disk := d, running := isOk o, hasBp := good }, outcomeBoot o)
+    let good := o.isOk || o == .fresh
+    ({ s with disk := d, running := o.isOk, hasBp := good }, outcomeBoot o)
   | _ => (s, "bad-op")
 
 end Drand.Driver
